@@ -41,6 +41,8 @@ type prog struct {
 	Src  string `json:"src"`
 	Hand bool   `json:"hand"`           // handcrafted program aimed at node-resident / process-wide runtime data
 	Deep bool   `json:"deep,omitempty"` // large program: sequential sweep only
+	// Expect: the stated result of the program ("" = none: only repeatability is checked)
+	Expect string `json:"expect,omitempty"`
 }
 
 // programs that exercise the runtime data living next to the syntax
@@ -93,12 +95,36 @@ var hand = []string{
 	"a = 0\nfor i in [1, 2, 3] { switch i { case 1: a += 1\ncase 2: a += 10\ndefault: a += 100 } }\na",
 	"x = nil ?? 3\ny = true ? 1 : 2\ntry { throw \"e\" } catch err { z = 1 } finally { w = 2 }\n[x, y, z, w]",
 	"var a, b = 1, 2\na, b = b, a\n[a, b, len([1, 2]), 1 in [1], \"ab\"[0], [1, 2, 3][1:2]]",
+	// type expressions of every shape (the type description is part of the tree;
+	// evaluating it looks names up in the environment)
+	"a = make([][]int64)\na += [[1, 2]]\nb = make([][][]string)\nc = make([]int64, 2, 4)\n[a, len(b), c]",
+	"a = [][]int64{[]int64{1}, []int64{2, 3}}\nb = [][][]bool{[][]bool{[]bool{true}}}\n[a, b]",
+	"a = make(map[string][]int64)\na.k = [1]\nb = make(map[string]map[string][][]int64)\nc = make(chan [][]string, 1)\n[a, len(b), len(c)]",
+	"a = make(struct { A [][]int64, B map[string][]string, C *int64 })\na.A = [[1]]\nx = make(*[][]int64)\n[a.A, len(a.B)]",
+	"func mk() { return make([][]int64) }\n[mk(), mk(), make([][][][]int64)]",
+}
+
+// programs with a stated result: a loop over a map goes over the entries the map
+// had when the loop began, whatever the body adds or removes (the number of
+// rounds and what is left do not depend on the iteration order)
+var handExpect = map[string]string{
+	"m = {\"a\": 1, \"b\": 2, \"c\": 3, \"d\": 4}\nn = 0\nfor k, v in m { m[k + \"x\"] = v; n++ }\n[n, len(m)]":                                    "[4 8]",
+	"m = {\"a\": 1, \"b\": 2, \"c\": 3, \"d\": 4, \"e\": 5, \"f\": 6}\nn = 0\nfor k in m { m[k + \"1\"] = 0; m[k + \"2\"] = 0; n++ }\n[n, len(m)]": "[6 18]",
+	"m = {1: 1, 2: 2, 3: 3}\nn = 0\nfor k, v in m { m[k + 10] = v; m[k + 20] = v; n += v }\n[n, len(m)]":                                           "[6 9]",
 }
 
 func corpus(c *common.Ctx) []prog {
 	var ps []prog
 	for i, s := range hand {
 		ps = append(ps, prog{Name: fmt.Sprintf("hand/%d", i), Src: s, Hand: true})
+	}
+	var es []string
+	for src := range handExpect {
+		es = append(es, src)
+	}
+	sort.Strings(es)
+	for i, src := range es {
+		ps = append(ps, prog{Name: fmt.Sprintf("hand-expect/%d", i), Src: src, Hand: true, Expect: handExpect[src]})
 	}
 	// quick: C08 corpus to depth 2, C09 corpus to depth 1; thorough: C08 to depth 3
 	// (the deeper programs take part in the sequential sweep only)
@@ -241,7 +267,11 @@ func sequential(p prog, stmt ast.Stmt, res *common.Result) (outcome, bool) {
 		reported[class] = true
 		res.Violate(common.Violation{Class: class, Case: p.Src, Detail: detail, Replay: replayData{Prog: p, Mode: "sequential"}})
 	}
-	for k := 0; k < 3; k++ {
+	reps := 3
+	if p.Hand {
+		reps = 12
+	}
+	for k := 0; k < reps; k++ {
 		o := normalise(runSolo(stmt, func(i int64) {
 			if p.Deep && i%8 != 0 {
 				return // large programs: the dump is compared at every 8th poll and after each run
@@ -259,12 +289,37 @@ func sequential(p prog, stmt ast.Stmt, res *common.Result) (outcome, bool) {
 			res.Add("fuel_exhausted", 1)
 			return o, false
 		}
+		if p.Expect != "" && (o.val != p.Expect || o.err != "") {
+			report("wrong-result", fmt.Sprintf("run %d: %s ; stated result: %s", k+1, o.key(), p.Expect))
+			okForInterleave = false
+		}
 		if k == 0 {
 			first = o
 		} else if o.key() != first.key() {
 			report("not-repeatable", fmt.Sprintf("run %d on an equal fresh environment: %s ; run 1: %s", k+1, o.key(), first.key()))
 			okForInterleave = false
 		}
+	}
+	if p.Hand && len(reported) == 0 {
+		// once more with the tree compared at every lock acquisition of the
+		// environment (name and type look-ups happen inside expressions and inside
+		// type descriptions, where no poll falls): also a write that is undone
+		// before the statement ends is a write
+		s := sched.New(&explore.Run{})
+		s.MaxSteps = 200000
+		s.OnLock = func() {
+			res.Add("dump_checks_at_locks", 1)
+			if astdump.Dump(stmt) != d0 {
+				report("tree-modified/during-run", "the parsed tree differs from its dump before execution at a lock acquisition inside a statement")
+			}
+		}
+		s.AddThread("run", func() {
+			obs := &irrun.Obs{}
+			e := irrun.NewEnv(obs)
+			ctx := stepctx.Fuel(fuel)
+			finish(obs, ctx, func() (interface{}, error) { return vm.RunContext(ctx, e, &vm.Options{Debug: false}, stmt) })
+		})
+		s.Run(nil)
 	}
 	if got := canary(); got != canaryWant {
 		report("process-state-changed", "after running the program a fresh environment evaluates "+canarySrc+" (and the package tables) to "+got+", pristine: "+canaryWant)
@@ -360,8 +415,8 @@ func run(c *common.Ctx) *common.Result {
 		}
 		t1 := time.Now()
 		for _, n := range []int{2, 3} {
-			if n == 3 && !p.Hand {
-				continue // three concurrent runs: handcrafted programs only
+			if n == 3 && (!p.Hand || p.Expect != "") {
+				continue // three concurrent runs: handcrafted programs only (and not the long map loops)
 			}
 			b := bound
 			if (n == 3 || !p.Hand) && b > 2 {
